@@ -323,6 +323,14 @@ def gen_urlglue():
                 srv_rows.append((s, b.host, b.server_name, b.server_port))
             finally:
                 b.close()
+    # get_host without a Host header: the (SERVER_NAME, SERVER_PORT) fallback, and a Host header next to a server
+    fb_rows = []
+    for s in ["http", "https", "ws", "wss", "ftp"]:
+        for hdr in [None, "hdr.example:8080", ""]:
+            for name in ["h", "::1", "[::1]", "2001:db8::80", "10.0.0.80", "", "/tmp/sock", "a:b"]:
+                for port in [None, 80, 443, 8080, 0]:
+                    fb_rows.append((s, hdr, name, port, get_host(s, hdr, (name, port))))
+            fb_rows.append((s, hdr, None, None, get_host(s, hdr, None)))
     keeps = make_unquote_part_sites()
     env_rows = environ_dict_entries()
     pf_rows, pf_saved = proxyfix_writes()
@@ -352,6 +360,11 @@ def getHostRules : List (List String × String × Nat) := [
 /-- `get_host(scheme, host_header)` evaluated on scheme x host (live function): (scheme, host, result) -/
 def getHostTable : List (String × String × String) := [
   {(',' + chr(10) + '  ').join(f'({lean_str(s)}, {lean_str(h)}, {lean_str(r)})' for s, h, r in host_rows)}]
+
+/-- `get_host(scheme, host_header, server)` (live function): (scheme, Host header or none, server =
+(name, port or none) or none, result) - the fallback to SERVER_NAME / SERVER_PORT when there is no Host header -/
+def getHostServerTable : List (String × Option String × Option (String × Option Nat) × String) := [
+  {(',' + chr(10) + '  ').join('(' + lean_str(s) + ', ' + ('none' if hdr is None else 'some ' + lean_str(hdr)) + ', ' + ('none' if name is None else 'some (' + lean_str(name) + ', ' + ('none' if port is None else 'some ' + str(port)) + ')') + ', ' + lean_str(r) + ')' for s, hdr, name, port, r in fb_rows)}]
 
 /-- an `EnvironBuilder` with `url_scheme` / `host` set: (scheme, host, server_name, server_port) (live object) -/
 def builderServerTable : List (String × String × String × Nat) := [
